@@ -69,13 +69,18 @@ def patched(obj, name, new):
         setattr(obj, name, old)
 
 
+class RunawaySimulation(Exception):
+    """more activations than any unmodified scenario of the harness can need"""
+
+
 class ActivationCounter:
     """Numbers the activations executed by usim's Loop (one call of Loop._run_coroutine = one
     activation) and calls `before(index, target, signal)` / `after(index, target, signal)` hooks at
     the boundaries.  Installed with `with counter.installed():` around usim.run()."""
 
-    def __init__(self, before=None, after=None):
+    def __init__(self, before=None, after=None, limit=20000):
         self.count = 0
+        self.limit = limit
         self.before = before
         self.after = after
 
@@ -88,6 +93,8 @@ class ActivationCounter:
         def _run_coroutine(loop, target, signal=None):
             idx = me.count
             me.count += 1
+            if idx > me.limit:
+                raise RunawaySimulation('simulation still running after %d activations' % me.limit)
             if me.before is not None:
                 me.before(idx, target, signal)
             try:
